@@ -115,7 +115,7 @@ def fix(t):
 def gen_c18(tier, R):
     out = []
     hays = ["", "a", "b", "ab", "ba", "aab", "abab", "aaa", "xaby", "a.b", "éa", "aéb", "a\nb", "+a+", "abcabc", "  ", "zzz"]
-    reps = ["", "X", "-é-", "[$]"[0:1], "ab"]
+    reps = ["", "X", "-é-", "[", "ab", "$$", "<$0>", "$1", "${1}x", "a$", "$x"]
     fixed = [('c', 'a'), ('star', ('c', 'a')), ('plus', ('c', 'a')), ('opt', ('c', 'a')), ('e',), ('any',), ('star', ('any',)), ('seq', ('c', 'a'), ('c', 'b')),
              ('alt', ('c', 'a'), ('c', 'b')), ('alt', ('c', 'a'), ('seq', ('c', 'a'), ('c', 'b'))), ('alt', ('seq', ('c', 'a'), ('c', 'b')), ('c', 'a')),
              ('grp', 0, ('c', 'a')), ('seq', ('grp', 0, ('c', 'a')), ('grp', 0, ('opt', ('c', 'b')))), ('seq', ('grp', 0, ('star', ('c', 'a'))), ('grp', 0, ('c', 'b'))),
